@@ -28,6 +28,24 @@ def snapshot(c):
     return out
 
 
+SHARED_BY_DESIGN = ("server", "loop", "user", "path_io_factory", "acquired")
+
+
+def _may_be_shared(key, v):
+    """may the value stored under `key` be the very same object in two sessions?  Immutable values and what the server
+    shares by design (itself, the loop, the user record of two sessions of one user); nothing else - in particular not
+    containers, streams, futures, tasks, queues or the storage backend instance"""
+    import pathlib
+
+    if key in SHARED_BY_DESIGN:
+        return True
+    if v is None or isinstance(v, (bool, int, float, str, bytes, frozenset, pathlib.PurePath, type)):
+        return True
+    if isinstance(v, tuple):
+        return all(_may_be_shared(key, x) for x in v)
+    return False
+
+
 def frame(verb, same_user, b_logged, b_cwd_i, b_rename, b_rest, b_passive, b_data, b_type, a_data):
     """session A executes one command while session B sits in an arbitrary state: B is not touched"""
     hb.KEY = ""
@@ -83,9 +101,14 @@ def frame(verb, same_user, b_logged, b_cwd_i, b_rename, b_rest, b_passive, b_dat
             for k in b.keys():
                 if k in a and a[k].done() and b[k].done():
                     va, vb = a[k].result(), b[k].result()
-                    if va is vb and isinstance(va, (set, list, dict)):
+                    if va is vb and not _may_be_shared(k, va):
                         shared.append(k)
-        snaps["shared"] = shared
+            # one backend instance per session, bound to its own session
+            for name, c in (("a", a), ("b", b)):
+                pio = c.path_io if "path_io" in c and c["path_io"].done() else None
+                if pio is not None and getattr(pio, "connection", c) is not c:
+                    shared.append("path_io.connection")
+        snaps["shared"] = sorted(set(shared))
 
     arg = ARGS_A[verb]
     ra = st.HookReader([(20, st.Line(verb.upper() + ((" " + arg) if arg else "") + "\r\n"), snap_before)], eof=False)
